@@ -140,3 +140,42 @@ def index_catalogue(kind, n):
         "unsorted": pd.date_range("2021-12-30", periods=n, freq="D", tz="US/Eastern")[::-1],
     }
     return cat[kind]
+
+
+def validate_frame(case, path, sym_df, real_fn, cols, stride=1, counter=[0]):
+    """Serval-style translation validation for frame-level harnesses: the path's witness goes through the real float64
+    code (`real_fn(env) -> DataFrame`), every cell of `cols` must agree with the symbolic frame evaluated at the witness."""
+    import z3 as _z3
+    from symv.engine import solve
+    from symv.proxies import numeval, lift, model_env, SReal
+    counter[0] += 1
+    if stride > 1 and counter[0] % stride:
+        return None
+    m = path.model
+    if m is None:
+        r, m = solve(path.pc, stats=case.stats, seed=case.seed)
+        if r != "sat":
+            return None
+        path.model = m
+    env = model_env(m, case.inputs)
+    try:
+        real = real_fn(env)
+        why = None
+        if list(real.index) != list(sym_df.index):
+            why = f"index {list(real.index)[:3]} vs {list(sym_df.index)[:3]}"
+        else:
+            for c in cols:
+                for t, a, b in zip(sym_df.index, cells(sym_df[c]), real[c].to_numpy(dtype=float)):
+                    av = numeval(_z3.simplify(lift(a)), env) if isinstance(a, SReal) else (float(a) if a is not None else float("nan"))
+                    if (av != av) != (b != b) or (av == av and abs(av - b) > 1e-6 * max(1.0, abs(b))):
+                        why = f"{c}@{t}: symbolic {av} vs real {b}"
+                        break
+                if why:
+                    break
+    except Exception as ex:  # noqa
+        why = f"real run raised {ex!r}"
+    if why is None:
+        case.rep["validated"] += 1
+        return True
+    case.rep["validation_mismatch"].append(dict(case=case.name, inputs=env, why=why))
+    return False
